@@ -666,3 +666,34 @@ def late_replay_jobs(start_run=1):
                 jobs.append(j)
                 run += 1
     return jobs
+
+
+# ---------------------------------------------------------------------------------------------
+# Directed schedules (thorough tier of C02, which admits failed reads): after a restart the wait for the interrupted
+# attempt fails (known finding K1: the lifecycle task dies, the HTLC stays held); then a further HTLC of the same hash
+# arrives that trips a fail request.  The fate of the attempt is still unknown: nothing may be failed back.
+def k1_then_fail_jobs(start_run=1):
+    jobs = []
+    run = start_run
+    cfg = dict(CFG_A)
+    p = pool(cfg, 10)
+    g1, g2 = p["good"][0], p["good"][1]
+    ds = lambda key: {"kind": "ds", "hash": "h1", "key": key}
+    X = lambda sel, fault="none": {"a": "exec", "sel": sel, "fault": fault}
+    D = lambda sel: {"a": "deliver", "sel": sel}
+    lds = {"kind": "listds", "hash": "h1"}; payc = {"kind": "pay", "hash": "h1"}
+    for bad in p["bad"][:3]:
+        for where in ("pending", "complete"):
+            s = [{"a": "htlc", "i": 1}, X(lds), D(lds), {"a": "htlc", "i": 2}, X(ds("state")), D(ds("state")), X(ds("att")), D(ds("att")),
+                 X(payc), {"a": "paypart", "sel": payc}, {"a": "crash", "lose": False},
+                 {"a": "htlc", "i": 1}, X(lds), D(lds)]
+            lp = {"kind": "lists", "hash": "h1", "status": "pending"}; lc = {"kind": "lists", "hash": "h1", "status": "complete"}
+            if where == "pending":
+                s += [X(lp, "error"), D(lp)]
+            else:
+                s += [X(lp), D(lp), X(lc, "error"), D(lc)]
+            s += [{"a": "htlc", "i": 3}, {"a": "tick"}, {"a": "htlc", "i": 2}, {"a": "tick"}]
+            jobs.append({"run": run, "scen": {"cfg": cfg, "invs": invs_for(10), "htlcs": [g1, g2, bad], "probe": []}, "sched": s,
+                         "drain": True, "tag": "directed:k1_then_fail"})
+            run += 1
+    return jobs
